@@ -55,7 +55,11 @@ class Lexer(object):
 
     @TOKEN(r"[\-\+]?\d+")
     def t_INT(self, t):
-        t.value = int(t.value)
+        try:
+            t.value = int(t.value)
+        except ValueError:
+            # Python limits the number of digits `int()` converts (see `sys.set_int_max_str_digits`)
+            raise SyntaxError("Integer literal is too long at position {0}".format(t.lexpos))
         return t
 
     @TOKEN(r'("(\\.|[^"\\])*")|(\'(\\.|[^\'\\])*\')')
